@@ -190,7 +190,7 @@ func drawC15(t *rapid.T) c15Case {
 	}
 	c.StaleSource = rapid.IntRange(0, 3).Draw(t, "stale_source") == 0
 	route := func(l string) c15Route {
-		r := c15Route{Src: rapid.IntRange(0, 2).Draw(t, l+"src"), Prefix: rapid.IntRange(0, len(c15Prefixes)-1).Draw(t, l+"p"), Variant: rapid.IntRange(0, 3).Draw(t, l+"v"), Comm: -1}
+		r := c15Route{Src: rapid.IntRange(0, 2).Draw(t, l+"src"), Prefix: rapid.IntRange(0, len(c15Prefixes)-1).Draw(t, l+"p"), Variant: rapid.SampledFrom([]int{0, 1, 2, 3, 0, 1, 2, 3, 4}).Draw(t, l+"v"), Comm: -1}
 		if rapid.Bool().Draw(t, l+"c") {
 			r.Comm = rapid.IntRange(0, len(c15Comms)-1).Draw(t, l+"cv")
 		}
@@ -313,6 +313,9 @@ func c15Attrs(p *rsPeer, r c15Route) rsAttrs {
 	case 2:
 		a.ASPath = []rsSeg{{T: 2, AS: []uint32{p.AS, 100, 200}}}
 		a.MED = 20
+	case 4:
+		// the local AS in the path: kept in the Adj-RIB-In as rejected, never used - also not after a soft reset in
+		a.ASPath = []rsSeg{{T: 2, AS: []uint32{p.AS, rsLocalAS, 400}}}
 	default:
 		a.ASPath = []rsSeg{{T: 2, AS: []uint32{p.AS, 300}}}
 		a.Origin = 2
